@@ -254,7 +254,7 @@ def literal_tensor(it, v, node, kind="tensor"):
             if items is None:
                 src = getattr(getattr(x, "obj", None), "source", None)
                 if src is not None and getattr(src, "tag", None):
-                    return T.sym("arr:%s" % src.tag), (UNK,)
+                    return T.sym("arr:%s" % src.tag), (getattr(src, "length", None) or UNK,)
                 return None, None
             subs = [rec(e) for e in items]
             if any(s[0] is None for s in subs):
@@ -382,6 +382,8 @@ def _call_ext(it, name, args, kwargs, node):
         it.effect("ext", "rng:other", node, n)
         return VUnknown(n, "unknown")
     if n == "torch.device":
+        if args and isinstance(args[0], VObj) and args[0].inst.ext == "torch.device":
+            return args[0]  # torch.device(d) == d
         inst = Instance(None)
         inst.ext = "torch.device"
         inst.attrs["type"] = args[0] if args else VUnknown("devtype", "str")
@@ -525,6 +527,14 @@ def call_opaque(it, f, args, kwargs, node):
 
 # ------------------------------------------------------------------------------ torch functions
 def call_torch(it, f, args, kwargs, node):
+    r = _call_torch(it, f, args, kwargs, node)
+    dv = kwargs.get("device") if isinstance(kwargs, dict) else None
+    if dv is not None and isinstance(r, VTens) and not (isinstance(dv, VConst) and dv.value is None) and r.obj.origin == "fresh":
+        r.obj.device_val = dv  # created on the requested device
+    return r
+
+
+def _call_torch(it, f, args, kwargs, node):
     from .ops import tensor_binop, shape_val, val_of_dim, dim_of
 
     dtype_bool = False
@@ -809,7 +819,14 @@ def call_numpy(it, f, args, kwargs, node):
             x = args[0]
             it.nnz_count = getattr(it, "nnz_count", 0) + 1
             # the number of selected positions is one named unknown (possibly 0), shared by every later use on this path
-            r = it.fresh(T.app("nonzero", x.term) if isinstance(x, VTens) and x.term is not None else None, ("nnz%d@%s" % (it.nnz_count, it.site(node)),), "ndarray", node)
+            nm_ = "nnz%d@%s" % (it.nnz_count, it.site(node))
+            r = it.fresh(T.app("nonzero", x.term) if isinstance(x, VTens) and x.term is not None else None, (nm_,), "ndarray", node)
+            if isinstance(x, VTens) and x.shape is not None and len(x.shape) == 1:
+                from .ops import DIM_BOUNDS, val_of_dim
+
+                bt = num_term(val_of_dim(x.shape[0]))
+                if bt is not None:
+                    DIM_BOUNDS[nm_] = bt
             r.obj.valkind = "index"
             return VTuple([r] * max(1, (x.rank or 1))) if isinstance(x, VTens) else VTuple([r])
         return opaque_tensor(it, "numpy.where", args, kwargs, node, kind="ndarray")
